@@ -230,7 +230,9 @@ def fam_binary(c):
             else:
                 # second/third operand: tensor of every shape, or a python scalar in the Tensor slot
                 menu = [("t" + fs(s), ("t", s)) for s in c.cfg["shapes"]]
-                menu += [("py:" + k, ("s", v)) for k, v in _scalar_menu(c.op, first[1])]
+                if sum(1 for a in sch if a[1] == "Tensor") == 2:
+                    # two-operand overloads: a python scalar may sit in the Tensor slot (x + 2 is add.Tensor(x, 2))
+                    menu += [("py:" + k, ("s", v)) for k, v in _scalar_menu(c.op, first[1])]
                 kind, v = c.pick(name, menu)
                 if kind == "t":
                     c.g[name] = T(v, first[1], _second_pat(c.op, first[1]))
